@@ -7,8 +7,7 @@ Every grammar production occurs in every context in which the documentation allo
   start values 0 / 1 / none, hermitian / antihermitian markers (before and after other clauses), products declared hermitian or not,
   integer division (positive, negative), unary minus, subtraction chains, `zero`, flag expressions,
   terms used exactly once (deleted after use) directly and through .adj.
-Left out on purpose (known finding F-DSL, DESIGN.md 10.5): `start = "<series>"` of a computed series;
-a once-used series WITH a start value consumed by a series that is evaluated at zeroth order (start = 1 or no start): its start value is deleted;
+Left out on purpose (known finding F-DSL, DESIGN.md 10.5):
 an `if lower:` clause followed by further clauses (the compiler returns after it, the documentation says clauses are summed).
 Three members of that family were repaired in /repo after this corpus exposed them (marker position, nested calls incl. calls under `diagonal`, chained divisions)
 and are now part of the corpus.
@@ -284,3 +283,43 @@ def call_under_diagonal():
         "A" / 2
 
     return "D"
+
+
+def start_from_input():
+    with "S0":
+        start = "B_0"
+        "A" - "B".adj / 2 + "S0 @ A"
+
+    with "S0 @ A":
+        pass
+
+    return "S0"
+
+
+def identity_start_consumes_started_term():
+    with "C":
+        start = 1
+        "A" - "D".adj + "B".adj
+        if diagonal:
+            "D2" / 2
+
+    with "D":
+        start = 0
+        "B".adj / -3
+
+    with "D2":
+        start = "B_0"
+        "A" + "A".adj
+
+    return "C"
+
+
+def no_start_consumes_started_term():
+    with "Z":
+        "B" - "Z1".adj
+
+    with "Z1":
+        start = 0
+        "B".adj + "A"
+
+    return "Z"
